@@ -155,7 +155,7 @@ func ruleTransitionRelation(c *Ctx, rule string) {
 	extracted := map[string]bool{}
 	for _, f := range names {
 		for _, t := range names {
-			res, err := evalPure(fn, fsmEnv{params: map[string]fval{fn.Params[0].Name(): {kind: "int", i: consts[f]}, fn.Params[1].Name(): {kind: "int", i: consts[t]}}})
+			res, err := evalPure(fn, fsmEnv{prog: c.P, params: map[string]fval{fn.Params[0].Name(): {kind: "int", i: consts[f]}, fn.Params[1].Name(): {kind: "int", i: consts[t]}}})
 			construct := "transition " + f + " -> " + t
 			if err != nil || len(res) != 1 || res[0].kind != "bool" {
 				c.Undecided(rule, construct, c.P.Pos(fn.Pos()), fmt.Sprintf("isValidStateChange is not interpretable: %v", err))
@@ -219,7 +219,7 @@ func ruleEpochTable(c *Ctx, rule string) {
 	const base = 5
 	for _, delta := range []int64{-1, 0, 1, 2} {
 		for _, s := range names {
-			env := fsmEnv{paths: map[string]fval{
+			env := fsmEnv{prog: c.P, paths: map[string]fval{
 				terms + ".Epoch": {kind: "int", i: base + delta},
 				cur + ".Epoch":   {kind: "int", i: base},
 				cur + ".State":   {kind: "int", i: consts[s]},
